@@ -1,6 +1,7 @@
 package main
 
 import (
+	"bytes"
 	"encoding/json"
 	"fmt"
 	"path"
@@ -56,9 +57,12 @@ type c13Stats struct {
 func c13World(gw *gen.GenWorld, env *Env, mount, exeDir string) []simrt.FileSpec {
 	fs := []simrt.FileSpec{}
 	for _, f := range gw.Files {
-		fs = append(fs, simrt.FileSpec{Path: path.Join(mount, f.Rel), Data: f.Data})
+		fs = append(fs, simrt.FileSpec{Path: path.Join(mount, f.Rel), Data: bytes.ReplaceAll(f.Data, []byte(gen.MountMark), []byte(mount))})
 	}
 	fs = append(fs, simrt.FileSpec{Path: path.Join(exeDir, "tsh"), Data: []byte("ELF")})
+	for _, f := range gw.StdFiles {
+		fs = append(fs, simrt.FileSpec{Path: path.Join(exeDir, "std", f.Rel), Data: bytes.ReplaceAll(f.Data, []byte(gen.MountMark), []byte(mount))})
+	}
 	for _, name := range sortedKeys(env.Std) {
 		fs = append(fs, simrt.FileSpec{Path: path.Join(exeDir, "std", name), Data: env.Std[name]})
 	}
@@ -311,12 +315,50 @@ func c13Round(r *Run, rng *gen.Rng, st *c13Stats, corpus []string, roundSize, sw
 		mount, exe := rng.Pick(mounts), rng.Pick(exes)
 		spec := simrt.WorldSpec{Files: c13World(gw, r.Env, mount, exe), Cwd: mount, Exe: path.Join(exe, "tsh"),
 			MapMode: rng.Pick([]string{"canonical", "reversed", "shuffle", "rotate"}), MapSeed: rng.U64(), Epoch: int64(rng.Intn(1 << 30)), Budgets: &b}
-		p := path.Join(mount, gw.Main)
+		// layout dimension: the same tree reached through symbolic links (a linked work directory,
+		// a stow/nix style tree in which every file is a link into a store, a linked installation)
+		via := mount
+		if rng.Chance(14) {
+			switch rng.Intn(3) {
+			case 0:
+				via = rng.Pick([]string{"/lnk/proj", "/home/u/work", "/sim/m-link"})
+				spec.Files = append(spec.Files, simrt.FileSpec{Path: via, Link: mount})
+				if rng.Chance(50) {
+					// absolute import paths written in terms of the link, too
+					for i := range spec.Files {
+						f := &spec.Files[i]
+						if strings.HasSuffix(f.Path, ".tsh") {
+							f.Data = bytes.ReplaceAll(f.Data, []byte("\""+mount+"/"), []byte("\""+via+"/"))
+						}
+					}
+				}
+				spec.Cwd = via
+				st.probes["layout_dirlink"]++
+			case 1:
+				n := len(spec.Files)
+				for i := 0; i < n; i++ {
+					f := &spec.Files[i]
+					if strings.HasPrefix(f.Path, mount+"/") && !f.Dir && f.Link == "" {
+						store := fmt.Sprintf("/store/%03d-%s", i, path.Base(f.Path))
+						spec.Files = append(spec.Files, simrt.FileSpec{Path: store, Data: f.Data})
+						f = &spec.Files[i]
+						f.Data, f.Link = nil, store
+					}
+				}
+				st.probes["layout_filelinks"]++
+			default:
+				lnk := "/usr/local/bin"
+				spec.Files = append(spec.Files, simrt.FileSpec{Path: lnk, Link: exe})
+				spec.Exe = lnk + "/tsh"
+				st.probes["layout_exelink"]++
+			}
+		}
+		p := path.Join(via, gw.Main)
 		if rng.Chance(30) {
 			p = gw.Main // relative to cwd
 			if rng.Chance(30) {
-				spec.Cwd = path.Dir(mount)
-				p = path.Join(path.Base(mount), gw.Main)
+				spec.Cwd = path.Dir(via)
+				p = path.Join(path.Base(via), gw.Main)
 			}
 		}
 		return c13Case{c: simrt.Case{World: spec, Path: p, Target: rng.Pick([]string{"bash", "batch"})},
@@ -326,7 +368,7 @@ func c13Round(r *Run, rng *gen.Rng, st *c13Stats, corpus []string, roundSize, sw
 	cases := []c13Case{}
 	var bases []int
 	for i := 0; i < roundSize; i++ {
-		gw := gen.NewWorld(rng.Sub(), gen.WorldOpts{MaxFiles: 5, StdPct: 4, AllowStd: true, Hostile: true, Decoys: 0, Corpus: corpus, CorpusPct: 35, SmallFeats: rng.Chance(50)})
+		gw := gen.NewWorld(rng.Sub(), gen.WorldOpts{MaxFiles: 5, StdPct: 4, AllowStd: true, Hostile: true, Decoys: 0, Corpus: corpus, CorpusPct: 35, SmallFeats: rng.Chance(50), AbsImports: true})
 		fam := "base"
 		if gw.Hostile {
 			fam = "hostile"
@@ -337,7 +379,7 @@ func c13Round(r *Run, rng *gen.Rng, st *c13Stats, corpus []string, roundSize, sw
 		cases = append(cases, bc)
 		// corrupted variants of the same world
 		for k := rng.Range(1, 3); k > 0; k-- {
-			cw := &gen.GenWorld{Main: gw.Main, Shape: gw.Shape, Closure: gw.Closure, Hostile: gw.Hostile}
+			cw := &gen.GenWorld{Main: gw.Main, Shape: gw.Shape, Closure: gw.Closure, Hostile: gw.Hostile, StdFiles: gw.StdFiles, AbsOK: gw.AbsOK}
 			cw.Files = append([]gen.WFile{}, gw.Files...)
 			victim := gw.Main
 			if len(gw.Closure) > 1 && rng.Chance(40) {
